@@ -3,9 +3,11 @@ mod c01;
 mod c04;
 mod corpus;
 mod c05;
+mod c06;
 mod c07;
 mod c08;
 mod c09;
+mod c10;
 mod c11;
 mod c14;
 mod c16;
@@ -58,6 +60,8 @@ fn main() {
         "C18" => c18::main(&args),
         "C17" => c17::main(&args),
         "C20" => c20::main(&args),
+        "C06" => c06::main(&args),
+        "C10" => c10::main(&args),
         "C14" => c14::main(&args),
         "setup" => {
             // generate and build every quick-tier corpus so that the first quick check is fast
